@@ -45,7 +45,7 @@ theorem setFiles_ok (o : Oracles) (st : Settings) (cwd : Comps) (ex : PPath → 
   have hw := withGetter_ok cwd B L' hL'
   unfold setFiles
   simp only [bind, Except.bind, pure, Except.pure, hdrop, hw]
-  have hkept : ∀ k ∈ (filterFiles o st cwd
+  have hkept : ∀ k ∈ (filterFiles o st cwd (some (name (abspath cwd B)))
       (L'.map fun f => (mkItem B f,
         (abspath cwd B ++ f.rel).drop (parent (abspath cwd B)).length))).map (·.1),
       ∃ f, f.rel.all isClean = true ∧ k = mkItem B f := by
@@ -54,7 +54,7 @@ theorem setFiles_ok (o : Oracles) (st : Settings) (cwd : Comps) (ex : PPath → 
     unfold filterFiles at hit
     obtain ⟨f, hf, rfl⟩ := List.mem_map.mp (List.mem_filter.mp hit).1
     exact ⟨f, hL' f hf, rfl⟩
-  generalize (filterFiles o st cwd
+  generalize (filterFiles o st cwd (some (name (abspath cwd B)))
       (L'.map fun f => (mkItem B f,
         (abspath cwd B ++ f.rel).drop (parent (abspath cwd B)).length))).map (·.1) = kept at hkept
   split
